@@ -74,8 +74,10 @@ Theorem c04_view_conditional : forall v attr i items,
 Proof. exact c04_view_partial. Qed.
 Print Assumptions c04_view_conditional.
 
-(** the guarded predicate the checker runs ([view_C04g c items := if c04_side c then view_C04 c items else na])
-    holds of every model expansion, for all inputs *)
+(** the guarded predicate the checker runs — [view_C04g c items]: [view_C04 c items] where [c04_side c] holds, together
+    with "the mock derivations are on the trait exactly when the implementation is restricted to [Impl<T>]" ([view_C10]
+    on fn / mod inputs: the mock types get their implementations from those derivations) — holds of every model
+    expansion, for all inputs *)
 Theorem c04_view_sound : forall v attr i items,
   expand_items v attr i = Ok items -> good (view_C04g (mkCtx v attr i) items).
 Proof. exact c04_view. Qed.
